@@ -380,6 +380,11 @@ func streamIntraProxyRouting(
 		}
 	}
 
+	// Without an intra-proxy manager (no memberlist configured) there is nothing to register the stream with
+	if shardManager.GetIntraProxyManager() == nil {
+		return serviceerror.NewFailedPrecondition("intra-proxy routing is not enabled on this proxy")
+	}
+
 	// Only allow intra-proxy when at least one shard is local to this proxy instance
 	isLocalSource := shardManager.IsLocalShard(sourceShardID)
 	isLocalTarget := shardManager.IsLocalShard(targetShardID)
